@@ -221,12 +221,16 @@ Proof.
     { destruct (mem d (solving s0)) eqn:Em.
       - inversion Es3; subst s3. apply mem_in in Em. auto.
       - match type of Es3 with match ?r1 with _ => _ end = _ => destruct r1 as [s1|e] eqn:Es1; [|discriminate] end.
-        destruct (mem d (fmap s1)) eqn:Emf; [|discriminate]. inversion Es3; subst s3; clear Es3.
+        destruct (mem d (fmap s1)) eqn:Emf; [|discriminate].
         assert (H1 : Inv b (f :: pend) s1 /\ vals s1 = vals s0 /\ fdep s1 = fdep s0).
         { destruct (mem d (fmap s0)); [inversion Es1; subst; auto|].
           split; [eapply Inv_add_form; eassumption|].
           destruct (add_form_spec _ _ _ _ Es1) as (fi & _ & _ & Ev & _ & Ef & _). auto. }
-        destruct H1 as (H1 & Ev1 & Ef1). unfold add_unattempted. proj_simpl.
+        destruct H1 as (H1 & Ev1 & Ef1).
+        destruct (mem d (solving s1)) eqn:Ems1.
+        { inversion Es3; subst s3. apply mem_in in Ems1. auto. }
+        inversion Es3; subst s3; clear Es3.
+        unfold add_unattempted. proj_simpl.
         split; [|split; [apply add_names_in; cbn [In]; auto|auto]].
         destruct H1. constructor; unfold srun in *; proj_simpl.
         + assumption.
